@@ -1,5 +1,5 @@
 (** * C13 - a Markdown document becomes its recipes plus ordinary CommonMark. *)
-From Coq Require Import List ZArith NArith Bool.
+From Coq Require Import List ZArith NArith Bool String.
 From RG Require Import Base.Str Base.Num Model.Recipe Model.Brace Model.Markdown.
 Import ListNotations.
 
